@@ -109,8 +109,7 @@ theorem extreme_index_correct (hpoU : PO leq U) (s : SL α) (hI : InvTop leq s) 
 /-- FULL (for the histories it speaks about).  After EVERY history in which no mutation dies of an exception other
     than the specified refusal (`NoInternalError`; queries may raise what they like), the invariant holds, the
     element list is the specified one, and therefore `top` / `bottom` report the actual greatest / least
-    element.  (`all_histories_partial` discharges `NoInternalError` for every history from a constructed
-    semilattice that contains no `add(new, fill_up_cache=False)` on a caching instance.) -/
+    element.  (`all_histories` discharges `NoInternalError` for every history from a constructed semilattice.) -/
 theorem extreme_index_correct_history (hpoU : PO leq U) (ops : List (OpSL α)) (s : SL α) (hI : InvTop leq s)
     (hnd : s.p.elems.Nodup) (hU : ∀ a ∈ s.p.elems, U a) (hin : ∀ op ∈ ops, OpInSL U op)
     (hclean : NoInternalError leq ord s ops) :
@@ -173,42 +172,37 @@ theorem incremental_sets (E : List α) (hnd : E.Nodup) (l1 l2 : List α) (hperm 
   · rw [mem_foldl_remove l1 hnd, mem_foldl_remove l2 hnd, hperm.mem_iff]
 
 /-- FULL.  The constructors establish the complete invariant `InvAll` = `InvTop` + duplicate-free elements + C09's
-    cache invariant + `Complete` (on a caching instance the closed relation of every element is cached on every
-    side whose `tops`/`bottoms` the class overrides - left behind by the constructor's own `POSet.tops/bottoms`
-    scan; `POSet.add`'s neighbour patching reads those entries, and on a semilattice `trace_element` no longer
-    scans because `self.tops` is `[self.top]`). -/
+    cache invariant + `DIC` (on a caching instance: wherever the direct relation of an element is cached -
+    `_cache_children[k]` / `_cache_parents[k]` - its closed relation `_cache_descendants[k]` / `_cache_ancestors[k]`
+    is cached too; `POSet.add`'s neighbour patching reads those entries, and on a semilattice `trace_element` does not
+    scan because `self.tops` is `[self.top]`, so the entries must come from the trace itself). -/
 theorem ctor_establishes_invariant (hpoU : PO leq U) (cls : Cls) (E : List α) (c : Bool) (hnd : E.Nodup)
     (hU : ∀ a ∈ E, U a) (s : SL α) (hs : ctor leq cls E c = .ok s) : InvAll leq s :=
   ctor_invAll hpoU cls E c hnd hU hs
 
-/-- FULL for every operation but one.  ONE STEP under `InvAll`, any operation of the documented range (`opOkSL`)
-    EXCEPT `add(new element, fill_up_cache=False)` on a caching instance (`wipes`): the step re-establishes `InvAll`;
-    its output is the specified answer `Spec.answerSL` - the refusal's exception and nothing else for a refused
-    mutation, `None` for an accepted one (so a non-refused `add` - with `fill_up_cache=True`, cached, included -
-    `del`, `remove` NEVER raises), the `Fresh` answer for a query, the index of the actual greatest / least element
-    for `top` / `bottom`; the element list is the specified one.  Uses C09's complete step theorems; the cached
-    `add(·, fill_up_cache=True)` is re-proved for the semilattice (`Lemmas/SemiLatticeAdd`) because there
-    `trace_element` starts from the cached extreme index instead of scanning.
-    PARTIAL in this sense only: the excluded operation wipes the relation caches, `Complete` then fails, and a later
-    cached `add(·, True)` on such a state is not covered (it needs "a cached direct relation implies the cached
-    closed relation", an invariant C09's `Inv` does not contain). -/
-theorem step_full_partial (henv : C09.Env leq ord U) (s : SL α) (hA : InvAll leq s) (hU : ∀ a ∈ s.p.elems, U a)
-    (op : OpSL α) (hok : opOkSL s.cls s.p.elems s.p.useCache op = true) (hin : OpInSL U op)
-    (hw : wipes s op = false) :
+/-- FULL.  ONE STEP under `InvAll`, any operation of the documented range (`opOkSL`: index arguments of queries in
+    range, `fill_up_*` only on a caching instance, `top`/`bottom` only where the class has it) - every `add` (new or
+    present element, `fill_up_cache` on or off, cached or not), `del`, `remove`, refused or not, every query: the
+    step re-establishes `InvAll`; its output is the specified answer `Spec.answerSL` - the refusal's exception and
+    nothing else for a refused mutation, `None` for an accepted one (a non-refused mutation NEVER raises), the `Fresh`
+    answer for a query, the index of the actual greatest / least element for `top` / `bottom`; the element list is
+    the specified one.  Uses C09's complete step theorems for everything but the cached `add(·, fill_up_cache=True)`,
+    which is re-proved for the semilattice (`Lemmas/SemiLatticeAdd`, `SemiLatticePatch`, `SemiLatticeDic`) because
+    there `trace_element` starts from the cached extreme index instead of scanning. -/
+theorem step_full (henv : C09.Env leq ord U) (s : SL α) (hA : InvAll leq s) (hU : ∀ a ∈ s.p.elems, U a)
+    (op : OpSL α) (hok : opOkSL s.cls s.p.elems s.p.useCache op = true) (hin : OpInSL U op) :
     InvAll leq (stepSL leq ord s op).1 ∧ (stepSL leq ord s op).2 = answerSL leq s.cls s.p.elems op ∧
       (stepSL leq ord s op).1.p.elems = nextSL leq s.cls s.p.elems op ∧
       (stepSL leq ord s op).1.cls = s.cls ∧ (stepSL leq ord s op).1.p.useCache = s.p.useCache :=
-  stepSL_full henv.po henv.ord_perm hA hU op hok hin hw
+  stepSL_full henv.po henv.ord_perm hA hU op hok hin
 
-/-- PARTIAL (restriction `histOk`: every operation in the documented index range, and no
-    `add(new, fill_up_cache=False)` on a caching instance; everything else - all queries, `add` with cache filling,
-    re-adding, refused operations, `del`, `remove`, in any interleaving - is covered).  Full statement: the same for
-    all histories.  For every such history from a state satisfying `InvAll` (every constructed semilattice,
-    `ctor_establishes_invariant`): no mutation raises anything but its specified refusal (so the hypothesis
-    `NoInternalError` of `extreme_index_correct_history` is discharged), every output is the specified one
-    (`runFreshSL`: in particular `top`/`bottom` always report the actual greatest/least element), and `InvAll`
-    holds at the end. -/
-theorem all_histories_partial (henv : C09.Env leq ord U) (ops : List (OpSL α)) (s : SL α) (hA : InvAll leq s)
+/-- FULL.  For EVERY history in the documented range (`histOk`: each operation `opOkSL` when it is executed) from a
+    state satisfying `InvAll` (every constructed semilattice, `ctor_establishes_invariant`): no mutation raises anything
+    but its specified refusal (this discharges the hypothesis `NoInternalError` of `extreme_index_correct_history`),
+    every output is the specified one (`runFreshSL`: in particular `top`/`bottom` always report the actual
+    greatest/least element and refused operations raise exactly the listed exception), the element list is the
+    specified one, and `InvAll` holds at the end. -/
+theorem all_histories (henv : C09.Env leq ord U) (ops : List (OpSL α)) (s : SL α) (hA : InvAll leq s)
     (hU : ∀ a ∈ s.p.elems, U a) (hin : ∀ op ∈ ops, OpInSL U op)
     (hok : histOk leq s.cls s.p.useCache s.p.elems ops = true) :
     NoInternalError leq ord s ops ∧
@@ -218,8 +212,7 @@ theorem all_histories_partial (henv : C09.Env leq ord U) (ops : List (OpSL α)) 
   ⟨noInternalError_of_histOk henv.po henv.ord_perm ops hA hU hin hok,
     runSL_full henv.po henv.ord_perm ops hA hU hin hok⟩
 
-/-- FULL (as a statement about structures satisfying `InvAll`; which histories reach `InvAll` is
-    `all_histories_partial`).  Order queries of incremental = batch, read through ELEMENTS: take two semilattice
+/-- FULL (`InvAll` holds after every history from a constructed semilattice: `all_histories`).  Order queries of incremental = batch, read through ELEMENTS: take two semilattice
     structures satisfying the invariant that list the same element SET in any two orders (e.g. two insertion /
     removal orders, or an incremental and a batch construction).  Then
     (1) comparing two elements through their indexes answers `leq x y` in both;
@@ -254,7 +247,7 @@ theorem incremental_eq_batch_order (henv : C09.Env leq ord U) (s1 s2 : SL α) (h
       (stepSL leq ord s (.op o)).2 = answer leq s.p.elems o := by
     intro s hA hU o ho hne hok
     have h := (stepSL_full (ord := ord) henv.po henv.ord_perm hA hU (.op o) hok
-      (by cases o <;> first | trivial | cases ho) (by cases o <;> first | rfl | cases ho)).2.1
+      (by cases o <;> first | trivial | cases ho)).2.1
     rw [h]
     cases o <;> first | exact absurd rfl (hne _) | rfl | cases ho
   refine ⟨fun x y i1 j1 i2 j2 h1 h2 h3 h4 => ?_, fun d x i1 i2 h1 h2 => ?_, fun d x i1 i2 h1 h2 => ?_, ?_⟩
@@ -320,12 +313,12 @@ example : (match ctor subLeq .upper [1, 3] true with
         | .error e => e == .ValueError) = true := by
   constructor <;> decide +kernel
 
-/-- the restriction `histOk` of `all_histories_partial` is met by a history with cached `add(·, True)` of new and
-    present elements, refused operations, deletions and queries; and the model's outputs are the specified ones -/
+/-- the hypothesis `histOk` of `all_histories` is met by a history with cached `add` (with and without cache filling)
+    of new and present elements, refused operations, deletions and queries; and the model's outputs are the specified ones -/
 example : (match ctor subLeq .lattice [0, 7] true with
     | .ok s =>
-      let ops : List (OpSL Nat) := [.op (.add 1 true), .op (.add 3 true), .op (.add 7 true), .op (.add 7 false),
-        .op (.direct .desc 1), .op (.del 2), .op (.del 1), .extreme .anc, .op (.remove 3), .op (.extremes .desc)]
+      let ops : List (OpSL Nat) := [.op (.add 1 true), .op (.add 3 true), .op (.add 7 true), .op (.add 7 false), .op (.add 5 false), .op (.add 4 true),
+        .op (.direct .desc 3), .op (.del 2), .op (.del 1), .extreme .anc, .op (.remove 3), .op (.extremes .desc)]
       histOk subLeq .lattice true [0, 7] ops &&
         ((runSL subLeq id s ops).2 == runFreshSL subLeq .lattice [0, 7] ops)
     | .error _ => false) = true := by decide +kernel
